@@ -110,16 +110,16 @@ pub proof fn lemma_pow256_mono(a: nat, b: nat) requires a <= b ensures pow256(a)
 
 // ======================= calculate_t (C13): least t with 2*(1 - d/2)^t + n/|F| <= 2^-lambda, over the reals =======================
 #[verifier::external_body] pub fn modulus_bit_size() -> (r: u32) ensures r == MBS(), 0 < r < 0x4000_0000 { unimplemented!() }
-//@fn id=lc_utils.calculate_t file=poly-commit/src/linear_codes/utils.rs scope=top name=calculate_t props=C13,C17
+//@fn id=lc_utils.calculate_t file=poly-commit/src/linear_codes/utils.rs scope=top name=calculate_t props=C13,C17,C19
 pub fn calculate_t(sec_param: usize, distance: (usize, usize), codeword_len: usize) -> (res: Result<usize, Error>)
     requires
         sec_param <= 0x7fff_ffff,
     ensures
         (res is Ok) == t_params_ok(sec_param as int, distance, codeword_len as int),   // name=lc_utils.calculate_t.err_iff_unusable_parameters props=C13,C17
-        res is Ok ==> res->Ok_0 <= codeword_len,                                       // name=lc_utils.calculate_t.capped_at_codeword_length props=C13
+        res is Ok ==> res->Ok_0 <= codeword_len,                                       // name=lc_utils.calculate_t.capped_at_codeword_length props=C13,C19
         res is Ok ==> res->Ok_0 == t_value(sec_param as int, distance, codeword_len as int),   // name=lc_utils.calculate_t.value props=C13
         (res is Ok && 0 <= t_star(sec_param as int, distance, codeword_len as int) < codeword_len) ==> res->Ok_0 == t_star(sec_param as int, distance, codeword_len as int),   // name=lc_utils.calculate_t.is_t_star props=C13
-        (res is Ok && t_star(sec_param as int, distance, codeword_len as int) >= codeword_len) ==> res->Ok_0 == codeword_len,   // name=lc_utils.calculate_t.cap props=C13
+        (res is Ok && t_star(sec_param as int, distance, codeword_len as int) >= codeword_len) ==> res->Ok_0 == codeword_len,   // name=lc_utils.calculate_t.cap props=C13,C19
 //@body
 //@rw 1 /F::MODULUS_BIT_SIZE/ => modulus_bit_size()
 //@r8
@@ -132,9 +132,9 @@ pub fn calculate_t(sec_param: usize, distance: (usize, usize), codeword_len: usi
         if distance.1 != 0 {
             assert((5real / 10real) * d0 / d1 == d0 / (2real * d1)) by (nonlinear_arith) requires d1 != 0real;
         }
+        // (facts about ceil(nom / denom), wherever the quotient is used below)
+        ax_ceil(nom@ / denom@); ax_ceil_int(r_ceil(nom@ / denom@));
     }
-//@after /let t =/
-    proof { ax_ceil(nom@ / denom@); ax_ceil_int(r_ceil(nom@ / denom@)); }
 //@end
 
 // the defining property of t*: it meets the soundness bound and t* - 1 does not
